@@ -1,6 +1,6 @@
 (* C15 — what a verdict of the generated case files means. *)
 From EsVerif.Common Require Import Base Bytes.
-From EsVerif.C15 Require Import Model Spec Proofs Exec.
+From EsVerif.C15 Require Import Model Spec Proofs Exec Verdict.
 From Coq Require Import Uint63.
 
 Lemma v_dynamic_values b args :
@@ -63,4 +63,16 @@ Proof.
   unfold frame_ret, frame_ok, analyze.
   destruct (analyze_r default_fuel sk (init_amap ps)) as [a|x s|]; intro H; try discriminate.
   inversion H. split; [reflexivity|]. exists a. split; reflexivity.
+Qed.
+
+(* the function the generated cases evaluate IS the specified verdict on the decoded snapshots, unless a literal is malformed
+   (then 7: reported) *)
+Lemma v_case_spec ro b rs obs args :
+  v_case ro b rs obs args = verdict_spec ro b rs obs (map (fun p => (dec63 (fst p), dec63 (snd p))) args)
+  \/ (ro = false /\ v_dynamic63 b args = 7).
+Proof.
+  unfold v_case, verdict_spec. destruct ro; [left; reflexivity|].
+  unfold v_dynamic_alias, v_dynamic63.
+  destruct (forallb _ args); [left | right; split; reflexivity].
+  unfold v_dynamic, covered, dec63. reflexivity.
 Qed.
